@@ -102,14 +102,14 @@ func pow(b, e int) int {
 }
 
 func run(c *eng.Ctx) error {
-	T1, a1 := c.N(4, 6), 3 // family A: time points, alphabet size (0..2 failures per point)
+	T1, a1 := c.N(4, 5), 3 // family A: time points, alphabet size (0..2 failures per point)
 	nA := 9 * pow(a1, T1)
-	T2, a2 := 9, 2
+	T2, a2 := 8, 2
 	nA2 := 0
 	if !c.Quick() {
 		nA2 = 9 * pow(a2, T2)
 	}
-	nB := c.N(200, 2000)
+	nB := c.N(200, 1500)
 	c.Stats["exhaustive"] = true
 	c.Stats["families"] = map[string]int{"A_exhaustive_timelines": nA, "A2_exhaustive_long": nA2, "B_random": nB}
 
